@@ -36,6 +36,7 @@ type semScenario struct {
 	Strategy   int       `json:"strategy"`
 	TimeAdvPct int       `json:"time_adv_pct"`
 	PCTChanges int       `json:"pct_changes"`
+	YieldUnlock bool     `json:"yield_unlock,omitempty"` // unlocks are scheduling points as well
 }
 
 type semEngine struct{}
@@ -57,6 +58,7 @@ func (semEngine) Gen(seed uint64, params map[string]any) json.RawMessage {
 	sc.Strategy = r.IntN(vrt.NumStrategies)
 	sc.TimeAdvPct = []int{0, 0, 2, 10, 30}[r.IntN(5)]
 	sc.PCTChanges = 1 + r.IntN(3)
+	sc.YieldUnlock = r.IntN(2) == 0
 	total := 0
 	for c := 0; c < nc; c++ {
 		nops := 1 + r.IntN(8)
@@ -456,7 +458,7 @@ func (semEngine) Exec(t *testing.T, raw json.RawMessage, tape *vrt.Tape, keepLog
 	run := &semRun{pending: map[int]*pendingAcq{}, probes: map[string]int{}}
 	semInitSize = sc.Size
 	cfg := vrt.Config{Strategy: sc.Strategy, TimeAdvPct: sc.TimeAdvPct, PCTChanges: sc.PCTChanges, PCTSpan: 150,
-		MaxSteps: 20000, Horizon: time.Hour, KeepLog: keepLog}
+		MaxSteps: 20000, Horizon: time.Hour, KeepLog: keepLog, YieldAfterUnlock: sc.YieldUnlock}
 	cfg.OnStep = func(s *vrt.Sim) {
 		if run.sem != nil && run.sem.mu.TryLock() {
 			cur := run.sem.cur
